@@ -637,6 +637,10 @@ def __CheckMat(mat: FeArray.FeArrayALike) -> None:
 def Transpose(mat: FeArray.FeArrayALike) -> FeArray.FeArrayALike:
     """Computes transpose(mat)"""
     assert isinstance(mat, np.ndarray) and mat.ndim >= 2
+    if isinstance(mat, FeArray) and mat._ndim < 2:
+        # a scalar or vector field is its own transpose, as with `.T`: the two trailing axes
+        # of its array are not both tensor axes
+        return mat
     res: FeArray.FeArrayALike = np.swapaxes(mat, -1, -2)
 
     if isinstance(mat, FeArray):
